@@ -127,7 +127,7 @@ def _replay_episode(case, b, res, checks, actions):
     led = B.Ledger(n, F.mult, case.get("deposit", 1000.0), fixed, prop)
     stats = {"executions": 0, "nonzero_trade_execs": 0, "quote_changed_between": 0, "ruin": False,
              "latent_quote_changed_price": 0, "boundary_quote": 0, "interest_nonzero": 0, "delay": case.get("delay", 0),
-             "steps": 0}
+             "steps": 0, "cost_ruin": False}
     delay = case.get("delay", 0)
     env.reset(E.fold_name(case))
     if len(tm.steps) < 2:
@@ -158,10 +158,38 @@ def _replay_episode(case, b, res, checks, actions):
             led.quote(i, bid[i], ask[i])
         tr = env.broker.track_record
         if not info:
-            # the decision arrived with NLV <= 0: nothing executed (C09's business); stop here
-            if led.nlv() + 0.0 > 1e-9 * led.scale() and len(tr) == ntr:
-                # could also be ruin by interest accrual; judge with recorded interest unknown -> leave to C09
-                pass
+            # The rebalance signalled the end of the episode. Either the decision arrived with NLV <= 0 and nothing was
+            # executed (C09's business), or it WAS executed and its own costs (fees, spread) exhausted the account:
+            # an executed decision, which the track record must account for like any other.
+            hq = env.broker.holdings_quantity
+            moved = [i for i in range(n) if not B.close(float(hq.get(F.contracts[i], 0.0)), led.q[i], rel=1e-12, abs_=1e-12)]
+            if "ledger" in checks and (moved or len(tr) != ntr):
+                stats["cost_ruin"] = True
+                if len(tr) != ntr + 1:
+                    res.fail("step %d executed trades (position of contract %d went from %r to %r) and ended the episode, but the track record "
+                             "has %d entries, not %d: an executed decision without an entry" % (
+                                 j, moved[0], led.q[moved[0]], float(hq.get(F.contracts[moved[0]], 0.0)), len(tr), ntr + 1))
+                    return stats
+                entry = tr[-1]
+                led.interest += float(entry.profit_on_idle_cash)
+                if not abs(entry.context_pre.nlv - led.nlv()) <= 1e-9 * led.scale():
+                    res.fail("execution %d (ruined by its own costs): context_pre.nlv %.12g, ledger wealth before the trades %.12g" % (
+                        j, entry.context_pre.nlv, led.nlv()))
+                    return stats
+                for trd in entry.trades:
+                    led.trade(F.index(trd.contract), float(trd.quantity))
+                for i in range(n):
+                    got = float(hq.get(F.contracts[i], 0.0))
+                    if not B.close(got, led.q[i], rel=1e-12, abs_=1e-12):
+                        res.fail("execution %d (ruined by its own costs): contract %d holds %r, the recorded trades give %r" % (j, i, got, led.q[i]))
+                        return stats
+                if not abs(float(entry.context_post.nlv) - led.nlv()) <= 1e-9 * led.scale() or led.nlv() > 1e-9 * led.scale():
+                    res.fail("execution %d (ruined by its own costs): context_post.nlv %.12g, ledger wealth after the trades %.12g" % (
+                        j, float(entry.context_post.nlv), led.nlv()))
+                    return stats
+                if not done:
+                    res.fail("step %d: the account was exhausted by the costs of its trades but done=False" % j)
+                    return stats
             stats["ruin"] = True
             break
         if len(tr) != ntr + 1:
